@@ -50,6 +50,11 @@ func c07Case(c fileCase, viol func(sig, detail string)) (shape string) {
 }
 
 func runC07(r *core.Run) {
+	// files built while another build runs through the same LinkSystem come out
+	// as they do alone (alone they equal the reference importer's, below)
+	if overlayActive {
+		concurrentBuilds(r, func(pr [2]c11Build) bool { return pr[0].content != nil && pr[1].content != nil })
+	}
 	r.Rule("bounded-exhaustive: every chunk count 0..w^3+w+1 per width x last chunk full/short/1-byte x {distinct,equal} x size-K chunkers, plus content-defined chunkers; oracle = (Cid,Size()) of boxo balanced.Layout{Maxlinks:w,RawLeaves,CIDv1} on the same chunker string; distinct = distinct (width, block count) shapes")
 	r.Assume("reference = boxo v0.24.0 balanced importer (a dependency of the repository)")
 	var cases []fileCase
